@@ -56,6 +56,16 @@ def _c(v):
     return ['?', type(v).__name__, repr(v)]
 
 
+def stable_repr(v):
+    """Representation used by the generated ParameterObject Oa.repr(): python repr (so substituted strings keep their
+    placeholder form), mappings sorted by key."""
+    if isinstance(v, list):
+        return '[' + ', '.join(stable_repr(x) for x in v) + ']'
+    if isinstance(v, dict):
+        return '{' + ', '.join(f'{stable_repr(k)}: {stable_repr(x)}' for k, x in sorted(v.items())) + '}'
+    return repr(v)
+
+
 def provenance(slug, params, inputs, salt=None):
     """params: {name: canonical text}; inputs: list of (label, digest)."""
     doc = [slug, sorted(params.items()), [[str(l), d] for l, d in inputs]]
@@ -114,6 +124,8 @@ def encode(kind, d, task):
         return (x for x in [d, {'k': [1, None]}])
     if kind == 'lazy':
         return (x for x in [d, 'tail'])
+    if kind == 'gen_empty':
+        return (x for x in [])
     if kind == 'list_numpy':
         b = bytes.fromhex(d)
         return [np.array(list(b[:4]), dtype='uint8'), np.array(list(b[4:]), dtype='uint8')]
@@ -140,11 +152,11 @@ def compute(task, params, inputs):
         nfp = task.name_for_persistence
     except Exception as e:  # pragma: no cover
         nfp = 'ERR:' + repr(e)
-    rt.log.append((task.fullname, nfp, id(task), seq, slug))
     ignored = task.meta.get('tcv_ignored', ())
     p = {k: canon_param(v) for k, v in params.items() if k not in ignored}
     i = [(label, digest_of(v)) for label, v in inputs]
     d = provenance(slug, p, i, salt=seq if rt.salt_seq else None)
+    rt.log.append((task.fullname, nfp, id(task), seq, slug, d))
     for h in list(rt.hooks):
         h(task, seq, d)
     n = rt.fail.get(slug, 0)
